@@ -148,3 +148,15 @@ def party_main(prim, path, parties, first, nthreads, limit, iters, depth,
             t.join()
     finally:
         board.close()
+
+
+PROBE_REFUSED, PROBE_GOT = 40, 41
+
+
+def probe_main(prim):
+    """try a non-blocking acquire from another process; report by exit code"""
+    import sys
+    got = prim.acquire(False)
+    if got:
+        prim.release()
+    sys.exit(PROBE_GOT if got else PROBE_REFUSED)
